@@ -176,3 +176,84 @@ def smallest(xs):
 
 def sort_dict(d):
     return sorted(d)
+
+
+def gen_evens(xs):
+    for x in xs:
+        if x % 2 == 0:
+            yield x
+
+
+def gen_pairs(a, b):
+    yield a
+    yield from b
+    yield a + 1
+
+
+def use_gen(xs):
+    n = 0
+    for e in gen_evens(xs):
+        n += 1
+    return n
+
+
+def gen_to_set(xs):
+    return {e + 1 for e in gen_evens(xs)}
+
+
+def gen_to_list(xs):
+    return list(gen_evens(xs))
+
+
+def extend_lazy(xs, src):
+    xs.extend(g for g in src if g not in xs)
+    return xs
+
+
+def or_empty(langs):
+    n = 0
+    for l in langs or ("dflt",):
+        n += 1
+    return n
+
+
+def unroll_many(d):
+    n = 0
+    for k in ("a", "b", "c", "d", "e", "f", "g", "h", "i", "j"):
+        if k not in d:
+            continue
+        if d[k] == 0:
+            continue
+        n += 1
+    return n
+
+
+def remove_then_len(xs, x):
+    xs.remove(x)
+    return len(xs)
+
+
+def filtered_lookup(ds, k):
+    return [d[k] for d in ds if k in d]
+
+
+def is_big(x):
+    return x > 10
+
+
+def any_big(xs):
+    return any(is_big(x) for x in xs)
+
+
+def bigs(xs):
+    return [x for x in xs if is_big(x)]
+
+
+def names_update(seen, xs):
+    seen.update(x + 1 for x in xs if x > 0)
+    return seen
+
+
+def replace_all(xs, ys):
+    xs[:] = ys
+    return len(xs)
